@@ -217,7 +217,26 @@ pub fn run_c07(tier: Tier) -> i32 {
                                 own_clients: false,
                                 client_mif: 0,
                                 zero_trace_id: false,
+                                head_untraced: false,
                             });
+                            // a traced server behind an untraced caller (the request then
+                            // carries the all-zero trace id): the handler's ambient context
+                            // still has the request's deadline (seeded change C07d)
+                            if regime == Regime::Otel && tv.iter().all(|t| *t == *tau) {
+                                cfgs.push(ChainCfg {
+                                    hops: hops.clone(),
+                                    r_ns: *r,
+                                    tau_ms: tv.clone(),
+                                    regime,
+                                    last_finishes: true,
+                                    abandon_after: None,
+                                    alphabet: 0,
+                                    own_clients: false,
+                                    client_mif: 0,
+                                    zero_trace_id: true,
+                                    head_untraced: true,
+                                });
+                            }
                         }
                     }
                 }
@@ -497,6 +516,7 @@ pub fn configs(prop: HProp, tier: Tier) -> Vec<ChainCfg> {
                                 own_clients,
                                 client_mif: 0,
                                 zero_trace_id: false,
+                                head_untraced: false,
                             });
                         }
                     }
@@ -518,6 +538,7 @@ pub fn configs(prop: HProp, tier: Tier) -> Vec<ChainCfg> {
                 own_clients: false,
                 client_mif: 0,
                 zero_trace_id: false,
+                head_untraced: false,
             };
             out.push(mk(None));
             for k in 0..=(if tier == Tier::Quick { 2 } else { 3 }) {
@@ -540,6 +561,7 @@ pub fn configs(prop: HProp, tier: Tier) -> Vec<ChainCfg> {
                     own_clients: false,
                     client_mif: 0,
                     zero_trace_id: true,
+                    head_untraced: false,
                 });
             }
         }
@@ -561,6 +583,7 @@ pub fn configs(prop: HProp, tier: Tier) -> Vec<ChainCfg> {
                         own_clients: false,
                         client_mif: 0,
                         zero_trace_id: false,
+                        head_untraced: false,
                     });
                 }
             }
@@ -584,6 +607,7 @@ pub fn configs(prop: HProp, tier: Tier) -> Vec<ChainCfg> {
                         own_clients: true,
                         client_mif: 0,
                         zero_trace_id: false,
+                        head_untraced: false,
                     });
                     // the abandoned call fills its client's in-flight limit (seeded change C04d:
                     // cancellations were held back while the client was at capacity)
@@ -598,6 +622,7 @@ pub fn configs(prop: HProp, tier: Tier) -> Vec<ChainCfg> {
                         own_clients: false,
                         client_mif: 1,
                         zero_trace_id: false,
+                        head_untraced: false,
                     });
                 }
             }
@@ -616,6 +641,7 @@ pub fn configs(prop: HProp, tier: Tier) -> Vec<ChainCfg> {
             own_clients: false,
             client_mif: 0,
             zero_trace_id: false,
+            head_untraced: false,
         });
     }
     out
@@ -653,6 +679,7 @@ pub fn c18_otel_grid(tier: Tier) -> (u64, Vec<(String, String)>) {
                             own_clients: false,
                             client_mif: 0,
                             zero_trace_id: false,
+                            head_untraced: false,
                         };
                         let e = execute_in_place(&cfg, &[]);
                         cells += 1;
